@@ -22,6 +22,8 @@ A file spec is {'segments': [seg, ...]}.  A segment spec:
     marker      bool   write 0xFFFFFFFFFFFFFFFF as next segment offset
     raw_flag    bool|None  force kTocRawData (None: set iff raw bytes > 0)
     daqmx_flag  bool|None  force kTocDAQmxRawData (None: set iff segment has daqmx data objects)
+    trim_raw    int    drop this many bytes from the end of the raw data; the lead-in states the shortened size (a segment
+                       whose last chunk is incomplete, e.g. after an interrupted write that was later appended to)
 """
 import struct
 
@@ -211,6 +213,8 @@ def encode_segment(seg, index_only=False):
     meta = encode_metadata(seg) if has_meta else b''
     pad = b'\x00' * seg.get('pad', 0)
     raw, layout = encode_raw(seg)
+    if seg.get('trim_raw'):
+        raw = raw[:max(len(raw) - seg['trim_raw'], 0)]
     toc = 0
     if has_meta:
         toc |= TOC_META
